@@ -65,6 +65,50 @@ def run_one(m, prop, tier="quick"):
         shutil.rmtree(d, ignore_errors=True)
 
 
+def run_seed(seed_dir, prop):
+    """A seeded change from /verif/seeded applied to a scratch copy: the property's check must report it
+    iff meta.json records it as detected."""
+    meta = json.load(open(os.path.join(seed_dir, "meta.json")))
+    d = scratch_copy()
+    try:
+        p = subprocess.run(["patch", "-p1", "-s", "-i", os.path.join(seed_dir, "patch.diff")], cwd=d, capture_output=True, text=True)
+        if p.returncode != 0:
+            return {"id": "seed:" + meta["id"], "status": "stale", "detail": "patch no longer applies"}
+        env = dict(os.environ, HPBF_REPO=d, HPBF_NO_EVIDENCE="1", HPBF_NO_CONTROLS="1")
+        q = subprocess.run([os.path.join(VERIF, "check"), prop, "--tier", "quick"], env=env, capture_output=True, text=True)
+        fired = [l for l in q.stdout.splitlines() if l.strip().startswith("violation [")]
+        rules = sorted({l.split("[", 1)[1].split("]", 1)[0] for l in fired})
+        want = bool(meta.get("detected"))
+        if want:
+            st = "killed" if (q.returncode == 1 and fired) else "missed"
+        else:
+            st = "undetected-as-documented" if not fired else "killed"
+        return {"id": "seed:" + meta["id"], "status": st, "rules_fired": rules, "expected": sorted(meta.get("detected_by", {}).get(prop, {}).get("rules", [])),
+                "first": fired[0].strip()[:240] if fired else ""}
+    finally:
+        shutil.rmtree(d, ignore_errors=True)
+
+
+def seeds_for(prop):
+    import glob
+    out = []
+    for d in sorted(glob.glob(os.path.join(VERIF, "seeded", "*"))):
+        mf = os.path.join(d, "meta.json")
+        if os.path.exists(mf) and json.load(open(mf)).get("breaks_property") == prop:
+            out.append(d)
+    return out
+
+
+def run_controls(prop, jobs=8):
+    from concurrent.futures import ThreadPoolExecutor
+    ms = load(prop)
+    sd = seeds_for(prop)
+    with ThreadPoolExecutor(max_workers=jobs) as ex:
+        a = list(ex.map(lambda m: run_one(m, prop), ms))
+        b = list(ex.map(lambda d: run_seed(d, prop), sd))
+    return a + b
+
+
 def run_all(prop, tier="quick", jobs=8):
     from concurrent.futures import ThreadPoolExecutor
     ms = load(prop)
